@@ -6,7 +6,7 @@
 From Coq Require Import ZArith List Bool Lia.
 From Coq Require String.
 Import String.StringSyntax.
-From CV Require Import Base.Val Base.Bytes Base.Tys Gen.Tables Gen.EdsTables Model.Eds Model.RefEds Proofs.Eds_proofs.
+From CV Require Import Base.Val Base.Bytes Base.Tys Gen.Tables Gen.EdsTables Gen.SrcC14 Model.Eds Model.RefEds Proofs.Eds_proofs Proofs.Src_eq_c14.
 Import ListNotations.
 Open Scope Z_scope.
 
@@ -102,6 +102,89 @@ Theorem C14_destination_type_from_name : forall name,
   export_od_type (Some name) None = Ok (Some (ends_with (s ".dcf") name)).
 Proof. exact export_type_from_name. Qed.
 
+(* ---- source-text tie (tie (c)): the decision logic of the export side, translated from the CURRENT source text by
+   tools/py2coq.py through tools/tables/src_c14.py (Gen/SrcC14.v, regenerated on every run), is the model's ---- *)
+(* export_od: explicit document type / file-name suffix / default, validation, "nothing written" *)
+Theorem C14_src_export_od : forall dest t,
+  export_od_type dest t =
+  src_export_od (osome dest)
+    (match dest with Some n => ends_with (s ".dcf") n | None => false end)
+    (match dest with Some n => ends_with (s ".eds") n | None => false end) (doc_code t).
+Proof. exact src_export_od_eq. Qed.
+
+(* _revert_variable dispatches on the DATA TYPE: byte strings as hex digits, text and REAL types as they are,
+   everything else as 0x.. with the sign in front *)
+Theorem C14_src_revert_class : forall dt z,
+  src_revert_variable false dt z =
+  if is_bytes_type dt then 1 else if is_text_type dt || zmem dt FLOAT_TYPES then 2 else if z <? 0 then 4 else 5.
+Proof. exact src_revert_class. Qed.
+
+Theorem C14_src_revert_variable : forall dt v,
+  revert_variable dt v =
+  let code := src_revert_variable false dt (match v with PVInt z => z | _ => 0 end) in
+  if code =? 1 then match v with PVBytes b => Some (tohex b) | _ => None end
+  else if code =? 2 then
+    (if is_text_type dt then match v with PVStr t => Some t | _ => None end
+     else match v with PVFloat m e => Some (float_print (m, e)) | PVInt z => Some (dec z) | _ => None end)
+  else match v with
+       | PVInt z => Some (if code =? 4 then 45 :: fmt_0x02X (- z) else fmt_0x02X z)
+       | _ => None
+       end.
+Proof. exact src_revert_variable_eq. Qed.
+
+(* export_variable: DefaultValue is the original text if there is one, else _revert_variable of the default, else absent *)
+Theorem C14_src_default_text : forall dt raw val,
+  value_text dt raw val = text_by_mode (src_var_default (osome raw) (osome val) 0) dt raw val.
+Proof. exact src_var_default_eq. Qed.
+
+(* ... and the parameter value by the same rule, for a DCF only *)
+Theorem C14_src_value_text : forall (dcf : bool) dt raw val pv, value_text dt raw val = Some pv ->
+  let mode := src_var_value dcf (osome raw) (osome val) 0 in
+  (if dcf then pv else None) = (if mode =? 0 then None else pv) /\
+  text_by_mode mode dt raw val = Some (if dcf then pv else None).
+Proof. exact src_var_value_eq. Qed.
+
+(* export_common + export_variable: the section name and exactly which keys are written for one variable *)
+Theorem C14_src_var_entries : forall (dcf top : bool) v dv pv,
+  let '(top_, named, ot) := src_var_head top false false 0 in
+  let '(w_name, w_sto) := src_export_common (match v_storage v with Some t => filled_str t | None => false end) false false in
+  let '(w_dt1, w_acc) := src_var_type (v_dt v) (filled_str (v_access v)) false false in
+  let '(w_dt, w_pdo) := src_var_fixed w_dt1 false in
+  let '(w_low, w_high) := src_var_limits (osome (v_min v)) (osome (v_max v)) false false in
+  let '(w_descr, w_factor, w_unit) :=
+    src_var_text (filled_str (v_descr v)) (negb ((fst (v_factor v) =? 1) && (snd (v_factor v) =? 0)))
+                 (filled_str (v_unit v)) false false false in
+  var_section_name top v = (if top_ then fmt_X 4 (v_index v) else fmt_X 4 (v_index v) ++ s "sub" ++ fmt_X 0 (v_sub v)) /\
+  named = true /\
+  var_entries dcf v dv pv =
+  [ (k_PName, if w_name then Some (v_name v) else None);
+    (s "StorageLocation", if w_sto then v_storage v else None);
+    (s "ObjectType", Some (s "0x" ++ fmt_X 0 ot));
+    (s "DataType", if w_dt then Some (s "0x" ++ fmt_X 4 (v_dt v)) else None);
+    (s "AccessType", if w_acc then Some (v_access v) else None);
+    (s "DefaultValue", dv);
+    (k_PValue, if dcf then pv else None);
+    (s "PDOMapping", if w_pdo then Some (hex_bool (v_pdo v)) else None);
+    (s "LowLimit", if w_low then option_map dec (v_min v) else None);
+    (s "HighLimit", if w_high then option_map dec (v_max v) else None);
+    (s "Description", if w_descr then Some (v_descr v) else None);
+    (s "Factor", if w_factor then Some (float_print (v_factor v)) else None);
+    (s "Unit", if w_unit then Some (v_unit v) else None) ].
+Proof. exact src_var_entries_eq. Qed.
+
+(* export_record = export_array: ObjectType 0x9 for a record, 0x8 for every array, SubNumber = number of members *)
+Theorem C14_src_export_record : forall dcf c secs, export_object dcf (OCont c) = Some secs ->
+  let '(ot, subnumber, members) :=
+    src_export_record (match c_kind c with KRec => true | KArr => false end) (Z.of_nat (length (c_subs c))) 0 0 false in
+  let '(w_name, w_sto) := src_export_common (match c_storage c with Some t => filled_str t | None => false end) false false in
+  members = true /\
+  hd_error secs = Some (fmt_X 4 (c_index c), kvs_of
+    [ (k_PName, if w_name then Some (c_name c) else None);
+      (s "StorageLocation", if w_sto then c_storage c else None);
+      (s "SubNumber", Some (s "0x" ++ fmt_X 0 subnumber));
+      (s "ObjectType", Some (s "0x" ++ fmt_X 0 ot)) ]).
+Proof. exact src_export_record_eq. Qed.
+
 (* ---- non-vacuity ---- *)
 Example C14_nv_objects :
   Forall (wf_obj (Some 5)) [ex_rec; OVar (ex_v 0 21 (Some (PVInt (-1))) None (Some 9223372036854775807))] /\
@@ -137,3 +220,10 @@ Print Assumptions C14_containers_kept.
 Print Assumptions C14_export_import_commissioning.
 Print Assumptions C14_destination_type_explicit.
 Print Assumptions C14_destination_type_from_name.
+Print Assumptions C14_src_export_od.
+Print Assumptions C14_src_revert_class.
+Print Assumptions C14_src_revert_variable.
+Print Assumptions C14_src_default_text.
+Print Assumptions C14_src_value_text.
+Print Assumptions C14_src_var_entries.
+Print Assumptions C14_src_export_record.
